@@ -433,13 +433,27 @@ pub fn setup(rng: &mut Rng, columns: u32, lines: u32, prof: &Profile) -> Vec<Op>
             }
         }
     }
+    // a headless half: the lead of a double-width character deleted, its empty second half slides
+    // left (into column 0 when the character stood there); the cursor often ends right behind it
+    let mut orphan_at: Option<(u32, u32)> = None;
+    if c >= 2 && rng.below(100) < 8 {
+        let y = rng.range(1, l);
+        let x = if rng.bool() { 1 } else { rng.range(1, c - 1) };
+        ops.push(Op::Api(Call::CursorPosition(Some(y), Some(x))));
+        ops.push(Op::Api(Call::Draw(rng.pick(&WIDE).to_string())));
+        ops.push(Op::Api(Call::CursorPosition(Some(y), Some(x))));
+        ops.push(Op::Api(Call::DeleteCharacters(Some(1))));
+        orphan_at = Some((y, x));
+    }
     // cursor placement (boundary biased), possibly at the pending-wrap column
     let y = match rng.below(5) {
         0 => 1,
         1 => l,
         _ => rng.range(1, l),
     };
-    if pct(rng, prof.pending_wrap, 22) {
+    if let (Some((oy, ox)), true) = (orphan_at, rng.bool()) {
+        ops.push(Op::Api(Call::CursorPosition(Some(oy), Some((ox + rng.below(2) as u32).min(c)))));
+    } else if pct(rng, prof.pending_wrap, 22) {
         if c >= 2 && rng.below(4) == 0 {
             // the pending-wrap column reached by a double-width character that ends flush with
             // the right edge (the last cell is then a placeholder, not a glyph)
@@ -448,6 +462,13 @@ pub fn setup(rng: &mut Rng, columns: u32, lines: u32, prof: &Profile) -> Vec<Op>
         } else {
             ops.push(Op::Api(Call::CursorPosition(Some(y), Some(c))));
             ops.push(Op::Api(Call::Draw(marker(c - 1, y - 1, c).to_string())));
+        }
+        // ... and sometimes the cursor is then taken to another row by a vertical move, which keeps
+        // the column: the pending-wrap column on a row that the last draw did not touch (possibly
+        // one that was never written at all)
+        if rng.below(4) == 0 {
+            let n = Some(rng.range(1, l));
+            ops.push(Op::Api(if rng.bool() { Call::CursorUp(n) } else { Call::CursorDown(n) }));
         }
     } else {
         let x = match rng.below(5) {
